@@ -343,8 +343,9 @@ Definition new_job (s : pool) (k : jkind) : job :=
 
 Definition do_apply (s : pool) (so ha lo : option Z) (slot : option bool) : pool * ret :=
   let wait := match slot with Some b => b | None => putlocks s end in
-  if wait && (LaxSem.value (sem s) =? 0) then (s, RBlocked)
-  else if negb (pstate s =? 0) then (s, RRefused)
+  (* apply_async tests the pool state first, then waits for a slot *)
+  if negb (pstate s =? 0) then (s, RRefused)
+  else if wait && (LaxSem.value (sem s) =? 0) then (s, RBlocked)
   else
     let s1 := if wait then with_sem s (sstep' (sem s) Acquire) else s in
     let x := new_job s1 KApply in
